@@ -193,7 +193,51 @@ func runC16(c *Ctx) {
 			c.Unk("C16.K5-watcher-needs-subscription", "announce › done channel", token.NoPos, "Close waits on a channel that no function creates")
 		}
 	}
-	c.Floor("C16.K5-watcher-needs-subscription", 2)
+	// K5c: the watcher closes that channel on every way out (a deferred close, or a close on every path to a return)
+	if watchEntry != nil && waitRecv != nil {
+		isCloseDone := func(i ssa.Instruction) bool {
+			ci, ok := i.(ssa.CallInstruction)
+			if !ok {
+				return false
+			}
+			bi, ok := ci.Common().Value.(*ssa.Builtin)
+			if !ok || bi.Name() != "close" || len(ci.Common().Args) != 1 {
+				return false
+			}
+			_, m := Match(Field("watchDone", Any()), c.E(ci.Common().Args[0]))
+			return m
+		}
+		deferred := false
+		instrs(watchEntry, func(i ssa.Instruction) {
+			if _, isDefer := i.(*ssa.Defer); isDefer && isCloseDone(i) {
+				deferred = true
+			}
+		})
+		okAll, path := deferred, ""
+		if !deferred {
+			okAll, path = allPathsPass(watchEntry, func(i ssa.Instruction) bool {
+				if _, isDefer := i.(*ssa.Defer); isDefer {
+					return false
+				}
+				if isCloseDone(i) {
+					return true
+				}
+				// or a step helper that closes it on every one of its own paths
+				if ci, ok := i.(*ssa.Call); ok {
+					if sc := ci.Call.StaticCallee(); sc != nil && sc.Pkg == watchEntry.Pkg && len(sc.Blocks) > 0 {
+						ok2, _ := allPathsPass(sc, isCloseDone)
+						return ok2
+					}
+				}
+				return false
+			})
+		}
+		c.Check(okAll, "C16.K5-watcher-needs-subscription", c.short(watchEntry.String())+" › closes the channel Close waits on, on every exit", watchEntry.Pos(),
+			"every way out of the watcher closes the channel Close waits on", "the watcher can return without closing the channel Close waits on ("+path+"): Close blocks forever")
+	}
+	c.Floor("C16.K5-watcher-needs-subscription", 3)
+	receiverCloseSignals(c, "C16.K2-close-signals-done")
+	c.Floor("C16.K2-close-signals-done", 1)
 
 	// ---- K6: closed test before cache access; watcher loop exits ---------------------
 	closedFalse := func(in ssa.Instruction) bool {
@@ -451,4 +495,45 @@ func c16WatcherExits(c *Ctx, watch *ssa.Function) {
 			c.Bad("C16.K6-closed-test-first", c.short(watch.String())+" › leaves loop on "+w, watch.Pos(), "watcher has no loop exit for "+w)
 		}
 	}
+}
+
+// receiverCloseSignals: the receiver's Close wakes whoever waits in Next — on
+// every path on which it marks the receiver closed it closes the done channel
+// (Next selects on it; the subscriber's watcher leaves its loop on Next's
+// error, and the subscriber's Close waits for that watcher).
+func receiverCloseSignals(c *Ctx, rule string) {
+	cl := c.Func("announce", "Receiver.Close")
+	if cl == nil {
+		c.Unk(rule, "announce.(*Receiver).Close", token.NoPos, "not found")
+		return
+	}
+	var mark *ssa.Store
+	instrs(cl.SSA, func(in ssa.Instruction) {
+		if st, ok := in.(*ssa.Store); ok {
+			if a := c.E(st.Addr); a.Op == "field" && a.Name == "closed" && fieldOwner(a) == "Receiver" {
+				if v, isConst := boolConst(c.E(st.Val)); isConst && v {
+					mark = st
+				}
+			}
+		}
+	})
+	if mark == nil {
+		c.Unk(rule, cl.Name+" › marks the receiver closed", cl.SSA.Pos(), "no store closed = true found")
+		return
+	}
+	isCloseDone := func(i ssa.Instruction) bool {
+		ci, ok := i.(ssa.CallInstruction)
+		if !ok {
+			return false
+		}
+		bi, ok := ci.Common().Value.(*ssa.Builtin)
+		if !ok || bi.Name() != "close" || len(ci.Common().Args) != 1 {
+			return false
+		}
+		_, m := Match(Field("done", Any()), c.E(ci.Common().Args[0]))
+		return m
+	}
+	ok, path := pathsFromPass(mark, isCloseDone)
+	c.Check(ok, rule, cl.Name+" › close(done) on every path that marks the receiver closed", mark.Pos(),
+		"once marked closed, every path through Close closes the done channel: a pending or later Next returns", "Close can mark the receiver closed and return without closing the done channel ("+path+"): Next never returns, so whoever waits for the consumer of Next (the subscriber's Close) hangs")
 }
